@@ -238,6 +238,33 @@ impl Slot for Option<String> {
     }
 }
 
+/// `Content-Disposition` header fields: the string is the file name of an `attachment`; two symbols of the
+/// common alphabet stand for the characters the header syntax quotes and escapes (`` ` `` = backslash,
+/// `%2F` = double quote), so that they occur at every position, the last one included
+impl Slot for Option<ruma_common::http_headers::ContentDisposition> {
+    const KIND: FK = FK::Opt;
+    fn from_fv(v: &FV) -> Self {
+        use ruma_common::http_headers::{ContentDisposition, ContentDispositionType};
+        match v {
+            FV::S(s) => Some(
+                ContentDisposition::new(ContentDispositionType::Attachment)
+                    .with_filename(Some(s.replace('`', "\\").replace("%2F", "\""))),
+            ),
+            _ => None,
+        }
+    }
+    fn to_fv(&self) -> FV {
+        match self {
+            Some(cd) => FV::S(format!(
+                "{}{}",
+                if cd.disposition_type == ruma_common::http_headers::ContentDispositionType::Attachment { "" } else { "<not an attachment>" },
+                cd.filename.as_deref().map(|f| f.replace('\\', "`").replace('"', "%2F")).unwrap_or_else(|| "<no filename>".into())
+            )),
+            None => FV::Absent,
+        }
+    }
+}
+
 impl Slot for Vec<String> {
     const KIND: FK = FK::List;
     fn from_fv(v: &FV) -> Self {
